@@ -107,11 +107,11 @@ theorem mem_treeEdges {H : Hier} {nb : Sig → List Sig} {p : Pair} :
 
 theorem mem_filed {H : Hier} {nb : Sig → List Sig} {c : Comp} {p : Pair} :
     p ∈ filed H nb c ↔ p ∈ treeEdges H nb ∧ hostOf H p = some c := by
-  simp [filed, List.mem_filter]
+  simp [filed, filedOf, List.mem_filter]
 
 theorem typeErr_false_iff {H : Hier} {nb : Sig → List Sig} :
     typeErr H nb = false ↔ ∀ p ∈ treeEdges H nb, ∃ c, hostOf H p = some c := by
-  unfold typeErr
+  unfold typeErr typeErrOf
   rw [Bool.eq_false_iff]
   simp only [ne_eq, List.any_eq_true, not_exists, not_and]
   constructor
@@ -367,8 +367,10 @@ theorem mem_connectOrder {c : Comp} {x : Pair} : x ∈ H.connectOrder c ↔ (c, 
 /-- the `connections` metadata of a component is the part of `assigns` tagged with it, in the same order -/
 theorem emit_eq_assigns (c : Comp) (l : List Pair) (h : emit H nb c = .ok l) :
     l = ((assigns H nb).filter (fun a => a.1 == c)).map (·.2) := by
-  unfold emit Hier.connectOrder at h
-  unfold assigns
+  unfold emit emitOf Hier.connectOrder at h
+  unfold assigns assignsOf
+  change emitFrom (filed H nb c) _ = _ at h
+  change l = List.map _ (List.filter _ (List.filterMap (fun s => (orient (filed H nb s.1) s.2).map (fun y => (s.1, y))) H.stmts))
   generalize H.stmts = ss at h ⊢
   induction ss generalizing l with
   | nil => simp [emitFrom] at h; simp [h]
@@ -400,7 +402,8 @@ theorem emit_eq_assigns (c : Comp) (l : List Pair) (h : emit H nb c = .ok l) :
 
 theorem assigns_snd (H : Hier) (nb : Sig → List Sig) :
     (assigns H nb).map (·.2) = H.stmts.filterMap (fun s => orient (filed H nb s.1) s.2) := by
-  unfold assigns
+  unfold assigns assignsOf
+  change List.map _ (List.filterMap (fun s => (orient (filed H nb s.1) s.2).map (fun y => (s.1, y))) H.stmts) = _
   rw [List.map_filterMap]
   congr 1
   funext s
@@ -408,7 +411,8 @@ theorem assigns_snd (H : Hier) (nb : Sig → List Sig) :
 
 theorem mem_assigns {a : Comp × Pair} :
     a ∈ assigns H nb ↔ ∃ x, (a.1, x) ∈ H.stmts ∧ orient (filed H nb a.1) x = some a.2 := by
-  unfold assigns
+  unfold assigns assignsOf
+  change a ∈ List.filterMap (fun s => (orient (filed H nb s.1) s.2).map (fun y => (s.1, y))) H.stmts ↔ _
   simp only [List.mem_filterMap, Option.map_eq_some_iff]
   constructor
   · rintro ⟨s, hs, y, hy, rfl⟩
@@ -422,7 +426,8 @@ theorem assigns_filed {a : Comp × Pair} (h : a ∈ assigns H nb) : a.2 ∈ file
   exact (orient_eq_some hy).1
 
 theorem accepted_iff : accepted H nb = true ↔ typeErr H nb = false ∧ ∀ c, ∃ l, emit H nb c = .ok l := by
-  unfold accepted
+  unfold accepted acceptedOf
+  change (!typeErr H nb && H.stmts.all (fun s => (orient (filed H nb s.1) s.2).isSome)) = true ↔ _
   simp only [Bool.and_eq_true, Bool.not_eq_true', List.all_eq_true]
   constructor
   · rintro ⟨h1, h2⟩
@@ -438,7 +443,8 @@ theorem accepted_iff : accepted H nb = true ↔ typeErr H nb = false ∧ ∀ c, 
       exfalso
       have := (emitFrom_error_iff (filed H nb s.1) (H.connectOrder s.1) .conversion).mpr
         ⟨rfl, s.2, mem_connectOrder.mpr hs, orient_eq_none.mp ho⟩
-      unfold emit at hl
+      unfold emit emitOf at hl
+      change emitFrom (filed H nb s.1) _ = _ at hl
       rw [hl] at this; cases this
 
 /-! ### the emitted pairs are the filed pairs -/
@@ -470,7 +476,7 @@ theorem filterMap_key (ss : List (Comp × Pair)) (h : ∀ s ∈ ss, (orient (fil
 theorem assigns_perm (hv : ValidOrder H nb) (hd : H.nets.Pairwise (fun a b => ¬ Reach H.edges a.1 b.1))
     (hs : StmtsNodup H) (hacc : accepted H nb = true) : ((assigns H nb).map (·.2)).Perm (treeEdges H nb) := by
   have hall : ∀ s ∈ H.stmts, (orient (filed H nb s.1) s.2).isSome := by
-    unfold accepted at hacc
+    unfold accepted acceptedOf at hacc
     simp only [Bool.and_eq_true, List.all_eq_true] at hacc
     exact hacc.2
   rw [assigns_snd]
